@@ -40,7 +40,11 @@ DTYPES = {
 # largest |x| generated: 3*|x| (|coeff| <= 2) and x + 600 (dither, coeff <= 100) must fit
 MAX_MAG = {"f8": 1e6, "f4": 1e6, "f2": 1e4, "i2": 10000, "i4": 7e8, "i8": 2.0 ** 61}
 KINDS = ["noise", "noise", "noise", "const", "impulse", "ramp", "alternating", "zeros"]
-LAYOUTS = ["contig", "contig", "contig", "stride2", "reversed"]
+LAYOUTS = ["contig", "contig", "contig", "stride2", "reversed", "subclass"]
+
+
+class _SignalArray(np.ndarray):
+    """A user subclass of ndarray (like np.memmap or np.recarray): still an array of samples."""
 
 
 def _base_signal(n, dt, seed, magfrac, kind):
@@ -87,6 +91,8 @@ def _with_layout(vals, layout):
         base = np.array(vals[::-1], copy=True, order="C")  # never a view of vals
         return base[::-1], base
     base = np.array(vals, copy=True, order="C")
+    if layout == "subclass":
+        return base.view(_SignalArray), base
     return base, base
 
 
@@ -112,6 +118,10 @@ def check_preemph(case):
     x, owner = _with_layout(vals, case["layout"])
     owner_before = owner.copy()
     pre = call("Preemphasize(coeff)", Preemphasize, coeff)
+    if case.get("other_after"):
+        # a second live object with another coefficient: parameters belong to the instance
+        other = Preemphasize(coeff * 0.5 + 0.3)
+        other.apply(np.arange(4.0))
     out = call("Preemphasize.apply", pre.apply, x, in_place=in_place)
     # reference: the recurrence in IEEE double, cast back
     xs = [float(v) for v in vals.tolist()]
@@ -184,6 +194,7 @@ def preemph_cases():
             "in_place": st.booleans(),
             "layout": st.sampled_from(LAYOUTS),
             "reuse": st.sampled_from([False, False, True]),
+            "other_after": st.booleans(),
         }
     )
 
@@ -228,6 +239,9 @@ def check_dither(case):
     z = z.copy()
 
     d = call("Dither(coeff)", Dither, c)
+    if case.get("other_after"):
+        other = Dither(c * 3.0 + 1.0)  # a second live object with another coefficient
+        del other
     np.random.seed(seed)
     out = call("Dither.apply", d.apply, x, in_place=in_place)
     require(isinstance(out, np.ndarray), "apply returned {}", type(out).__name__)
@@ -288,6 +302,7 @@ def dither_cases():
             "coeff": st.one_of(st.just(0.0), st.just(1.0), floats(0.01, 2.0), floats(0.01, 2.0), log_uniform(-6, 2), log_uniform(-6, 2)),
             "in_place": st.booleans(),
             "layout": st.sampled_from(LAYOUTS),
+            "other_after": st.booleans(),
             "seed": st.integers(0, 2 ** 32 - 1),
             "seed2": st.integers(0, 2 ** 32 - 1),
         }
